@@ -242,6 +242,28 @@ fn fam_duplicate_commitments(tag: &str, out: &mut Vec<Case>) {
         })));
     }
 }
+// the `prove` entry point (OS generator): honest proofs verify under the caller's transcript context, and two runs do not repeat their nonces
+fn fam_entry_point(tag: &str, out: &mut Vec<Case>) {
+    let id = format!("{}:complete:prove-entry-point", tag);
+    out.push((id, Box::new(move || {
+        let mut setup = rng_for("prove-entry-point");
+        for &(bits, m, d, seed) in &[(8usize, 1usize, 2usize, true), (16, 2, 1, false)] {
+            let (statement, witness, first_r) = make_statement(&mut setup, bits, m, m, d, seed, Some(1))?;
+            let ctx = || { let mut t = Transcript::new(b"ctx"); t.append_message(b"prior", b"content"); t };
+            let p1 = RangeProof::prove(&mut ctx(), &statement, &witness).map_err(|e| format!("prove() refused a valid witness: {:?}", e))?;
+            let p2 = RangeProof::prove(&mut ctx(), &statement, &witness).map_err(|e| format!("prove() refused a valid witness: {:?}", e))?;
+            if !seed && p1.to_bytes() == p2.to_bytes() { return Err("prove() returned the same proof twice for an unseeded statement: its nonces do not come from the OS generator".into()); }
+            for p in [p1, p2] {
+                let mut t = [ctx()];
+                let res = RangeProof::verify_batch(&mut t, &[statement.clone()], &[p.clone()], VerifyAction::RecoverAndVerify)
+                    .map_err(|e| format!("proof made by prove() under a transcript with prior content rejected: {:?}", e))?;
+                let mem = Member { statement: statement.clone(), proof: p, blindings: first_r.clone(), seeded: seed && m == 1 };
+                check_masks(&[mem], &res, true)?;
+            }
+        }
+        Ok(())
+    })));
+}
 // "for whatever random-number generator the prover is handed": constant and short-period generators
 struct CycleRng(Vec<u8>, usize);
 impl RngCore for CycleRng {
@@ -277,6 +299,7 @@ fn fam_degenerate_rng(tag: &str, out: &mut Vec<Case>) {
 fn fam_completeness(tag: &str, out: &mut Vec<Case>) {
     fam_corner_witnesses(tag, out);
     fam_duplicate_commitments(tag, out);
+    fam_entry_point(tag, out);
     fam_degenerate_rng(tag, out);
     if tag != "C09" && tag != "C10" { fam_fixed_seeds(tag, out); }
     // C01 / C12 / C09 / C10: honest proofs verify in every mode, masks are the blinding vectors, any verifier capacity works
@@ -1055,9 +1078,9 @@ fn families(prop: &str) -> Vec<Case> {
         "C01" | "C12" => { if prop == "C12" { fam_gens(prop, &mut v); fam_batch(prop, &mut v); } fam_completeness(prop, &mut v); }
         "C02" | "C04" | "C05" => { fam_binding(prop, &mut v); fam_batch(prop, &mut v); if prop == "C05" { fam_panics(prop, &mut v); fam_codec(prop, &mut v); } if prop == "C02" { fam_modes(prop, &mut v); } fam_completeness(prop, &mut v); }
         "C03" | "C08" => { fam_batch(prop, &mut v); }
-        "C06" | "C07" => { fam_prover(prop, &mut v); if prop == "C07" { fam_binding(prop, &mut v); fam_batch(prop, &mut v); } }
+        "C06" | "C07" => { fam_prover(prop, &mut v); if prop == "C06" { fam_entry_point(prop, &mut v); } if prop == "C07" { fam_binding(prop, &mut v); fam_batch(prop, &mut v); } }
         "C09" | "C10" => { fam_modes(prop, &mut v); fam_completeness(prop, &mut v); fam_batch(prop, &mut v); fam_vectors(prop, &mut v); fam_fixed_seeds(prop, &mut v); }
-        "C13" | "C14" => { fam_nonces(prop, &mut v); fam_alpha(prop, &mut v); if prop == "C13" { fam_vectors(prop, &mut v); } }
+        "C13" | "C14" => { fam_nonces(prop, &mut v); fam_alpha(prop, &mut v); fam_entry_point(prop, &mut v); if prop == "C13" { fam_vectors(prop, &mut v); } }
         "C11" => { fam_gens(prop, &mut v); }
         "C15" => { fam_codec(prop, &mut v); }
         "C16" => { fam_panics(prop, &mut v); fam_codec(prop, &mut v); fam_batch(prop, &mut v); }
